@@ -240,6 +240,64 @@ pub fn check_record(rec: &Rec, sel: u64, exhaustive: bool) -> Result<(u64, u64),
             }
         }
     }
+    // 2d. Damage the checksum does not betray: the type tag / body is altered (one byte set to
+    // another value, the last body byte dropped, one byte inserted) and the checksum is then
+    // recomputed over the altered bytes — what a buggy or foreign writer would produce. The
+    // decoder must still agree with the reference decoder (which accepts only canonical
+    // encodings), i.e. refuse or decode to a record that re-encodes to exactly those bytes.
+    {
+        let body_end = buf.len() - 8;
+        let reseal = |mut b: Vec<u8>| -> Vec<u8> {
+            let crc = crc32fast::hash(&b) as u64;
+            b.extend_from_slice(&crc.to_be_bytes());
+            b
+        };
+        let lim = body_end.min(if exhaustive { 300 } else { 40 });
+        let mut positions: Vec<usize> = (0..lim).collect();
+        for k in 0..8u64 {
+            if body_end > 0 {
+                positions.push((mix(sel, 2000 + k) % body_end as u64) as usize);
+            }
+        }
+        positions.sort();
+        positions.dedup();
+        for &pos in &positions {
+            let o = buf[pos];
+            for v in [0u8, 1, 2, 5, 0x80, 0xff, o.wrapping_add(1), o ^ 1] {
+                if v == o {
+                    continue;
+                }
+                let mut b = buf[..body_end].to_vec();
+                b[pos] = v;
+                evals += 1;
+                if check_bytes(&reseal(b), "an encoding altered in one byte with the checksum recomputed")? {
+                    ok_from_mutation += 1;
+                }
+            }
+        }
+        if body_end > 4 {
+            evals += 2;
+            let mut b = buf[..body_end].to_vec();
+            b.pop();
+            check_bytes(&reseal(b), "an encoding whose last body byte was dropped, checksum recomputed")?;
+            let mut b = buf[..body_end].to_vec();
+            b.insert(4 + (mix(sel, 77) % (body_end as u64 - 3)) as usize, 0);
+            check_bytes(&reseal(b), "an encoding with one inserted zero byte, checksum recomputed")?;
+            // State records: a different version byte with the last field dropped
+            if matches!(rec, Rec::State(_)) {
+                for ver in [0u8, 2] {
+                    for drop in [1usize, 2] {
+                        if body_end > 5 + drop {
+                            let mut b = buf[..body_end - drop].to_vec();
+                            b[4] = ver;
+                            evals += 1;
+                            check_bytes(&reseal(b), "a State record with another version byte and a shorter body, checksum recomputed")?;
+                        }
+                    }
+                }
+            }
+        }
+    }
     // 3. truncations and single-byte mutations
     let len = buf.len();
     let exhaustive = exhaustive && len <= 300;
